@@ -66,7 +66,7 @@ type Profile struct {
 // DefaultMechs is the broad mechanism mix.
 var DefaultMechs = map[string]int{
 	"same": 30, "diff": 22, "case": 8, "getter": 10, "nested": 10, "skip": 6, "map": 10, "conv": 10,
-	"literal": 4, "none": 5, "slice": 10, "unexported": 4, "embedded": 3, "ptrnested": 4,
+	"literal": 4, "none": 5, "slice": 10, "unexported": 4, "embedded": 3, "ptrnested": 4, "blank": 2,
 }
 
 // Broad is the profile used by C01/C02/C04/C05.
@@ -406,6 +406,10 @@ func (b *Builder) genField(ctx pairCtx, src, dst *SDecl, name, mech string) {
 	case "literal":
 		t := b.pick(map[string]int{"int": 3, "string": 3, "bool": 1, "LInt": 1, "*int": 1})
 		lit := map[string]string{"int": "4242", "string": `"lit-` + name + `"`, "bool": "true", "LInt": "LInt(77)", "*int": "nil"}[t]
+		if t == "string" && b.chance(0.4) {
+			// characters that are special to text templating / regexp replacement must survive literally
+			lit = []string{`"$USD"`, `"$1.50off"`, `"${name}"`, `"100%d"`, `"a\\b"`, "`raw$0`", `"x$$y"`}[b.R.Intn(7)]
+		}
 		if (dst.Pkg != "" || src.Pkg != "") && t == "LInt" {
 			t, lit = "int", "4242"
 		}
@@ -422,6 +426,15 @@ func (b *Builder) genField(ctx pairCtx, src, dst *SDecl, name, mech string) {
 		b.addProbe(ctx, name, mech, t.Expr, "", "")
 	case "slice":
 		b.genSlice(ctx, src, dst, name)
+	case "blank":
+		// blank padding fields: can be neither read nor assigned, the fields after them must still be handled
+		t := []string{"int32", "[0]func()", "struct{}", "string"}[b.R.Intn(4)]
+		dst.Fields = append(dst.Fields, FDecl{Name: "_", Type: t})
+		if b.chance(0.5) {
+			src.Fields = append(src.Fields, FDecl{Name: "_", Type: t})
+		}
+		// and a regular field after it
+		b.genField(ctx, src, dst, name, "same")
 	case "unexported":
 		t := b.typeFor(src.Pkg, dst.Pkg)
 		un := lowerFirst(name)
@@ -484,7 +497,11 @@ func (b *Builder) genMap(ctx pairCtx, src, dst *SDecl, name string) {
 	t := simpleTypes[b.R.Intn(len(simpleTypes))]
 	dst.Fields = append(dst.Fields, FDecl{Name: name, Type: t})
 	dpath := joinPath(ctx.dstPath, name)
-	variant := b.pick(map[string]int{"field": 4, "getter": 3, "nestedsrc": 2, "arg": 3, "argpath": 2, "unresolved": 1, "wrongcase": 1, "gettererr": 1, "typed": 2})
+	variant := b.pick(map[string]int{"field": 4, "getter": 3, "nestedsrc": 2, "arg": 3, "argpath": 2, "unresolved": 1, "wrongcase": 1, "gettererr": 1, "typed": 2, "hiddenseg": 1})
+	if variant == "hiddenseg" {
+		t = "int"
+		dst.Fields[len(dst.Fields)-1].Type = t
+	}
 	if !ctx.topLevel && ctx.rootSrc != nil && ctx.rootSrc.Pkg == src.Pkg && b.chance(0.3) {
 		variant = "rootsrc"
 	}
@@ -501,6 +518,10 @@ func (b *Builder) genMap(ctx pairCtx, src, dst *SDecl, name string) {
 	}
 	sp := func(n string) string { return joinPath(ctx.srcPath, n) }
 	switch variant {
+	case "hiddenseg":
+		// a later segment of the path is an unexported member of a struct from another package: not reachable
+		src.Fields = append(src.Fields, FDecl{Name: other, Type: "ext.Inner"})
+		m.Notations = append(m.Notations, Notation{Name: "map", Args: []string{sp(other + ".hid"), dpath}})
 	case "rootsrc":
 		// the source path names a member of the ROOT source operand; the nested source struct has a
 		// member of the same name (a decoy that must not be used: source paths start at the operand)
@@ -692,7 +713,7 @@ func (b *Builder) genConv(ctx pairCtx, src, dst *SDecl, name string) {
 	} else {
 		src.Fields = append(src.Fields, FDecl{Name: srcField, Type: srcT})
 	}
-	if variant != "ext" {
+	if !strings.HasPrefix(variant, "ext") {
 		site := fname
 		body := strings.ReplaceAll(cs.body, "SITE", fmt.Sprintf("%q", site))
 		deref := ""
